@@ -371,6 +371,9 @@ def check(run):
     r5_accumulate(run, F, D)
     r6_digit_evidence(run, F, D)
     r7_digit_tables(run, F)
+    # the first generation's counterpart of R6-DIGIT-EVIDENCE: `0x` / `0b` without a digit is E141 for both lexers
+    from props import c09
+    c09.r9_radix_needs_digit(run, F, A)
     # exact spans of the first generation: the per-line offset bookkeeping in lex() (shared with C13.R4 / R5)
     from props import c13
     c13.r4_lines(run, F)
